@@ -476,7 +476,7 @@ func init() {
 		Run: func(c *mon.Ctx) {
 			ev := c.Counter("evaluations")
 			nt := c.DistinctSet("nontrivial")
-			n := c.Pick(200_000, 5_000_000)
+			n := c.Pick(200_000, 60_000_000)
 			c.ForEach(n, func(w, i int) {
 				r := c.Rand(1, uint64(i))
 				k := &c14Case{Argv: c14Gen(r)}
